@@ -100,7 +100,12 @@ func goMapDefineOwnProperty(obj *object, name string, descriptor property, throw
 		// A nil map cannot be written to.
 		return obj.runtime.typeErrorResult(throw)
 	}
-	goObj.value.SetMapIndex(goObj.toKey(name), goObj.toValue(descriptor.value.(Value)))
+	value, ok := descriptor.value.(Value)
+	if !ok {
+		// {writable: true} alone is a data descriptor without a value.
+		value = Value{}
+	}
+	goObj.value.SetMapIndex(goObj.toKey(name), goObj.toValue(value))
 	return true
 }
 
